@@ -31,7 +31,7 @@ func TestC10Proc(t *testing.T) {
 				cells = append(cells, Cell{
 					Name:   fmt.Sprintf("%d stderr lines, Stderr writer takes %d us per write, plugin: %s", n, us, name),
 					Plugin: PluginConf{LegacyProto: "netrpc"},
-					Host:   HostConf{Allowed: []string{"netrpc", "grpc"}, TLS: "none", Launch: "cmd", Legacy: 1, Script: sc, StartTimeoutMs: 1500, SlowStderrUs: us},
+					Host:   HostConf{Allowed: []string{"netrpc", "grpc"}, TLS: "none", Launch: "cmd", Legacy: 1, Script: sc, StartTimeoutMs: 6000, SlowStderrUs: us},
 					Ops:    ops,
 				})
 			}
